@@ -256,28 +256,26 @@ void TensorCopy(tensor* asrc, tensor** adst)
     }
   }
   else{
-    if(asrc->order != (*adst)->order){
-      /* resize  the order */
-      (*adst)->m = xrealloc((*adst)->m, sizeof(tensor*)*asrc->order);
-    }
-
-    /*chek and resize the matrix for each order if is necessary */
-    for(k = 0; k < asrc->order; k++){
+    /* check if the destination has already the shape of the source */
+    int same_shape = (asrc->order == (*adst)->order);
+    for(k = 0; same_shape && k < asrc->order; k++){
       if(asrc->m[k]->row != (*adst)->m[k]->row || asrc->m[k]->col != (*adst)->m[k]->col){
-
-        (*adst)->m[k]->row = asrc->m[k]->row;
-        (*adst)->m[k]->col = asrc->m[k]->col;
-
-        (*adst)->m[k]->data = xrealloc((*adst)->m[k]->data, sizeof(double*)*asrc->m[k]->row);
-
-        for(i = 0; i < asrc->m[k]->row; i++){
-          (*adst)->m[k]->data[i] = xrealloc((*adst)->m[k]->data[i], sizeof(double)*asrc->m[k]->col);
-        }
+        same_shape = 0;
       }
     }
 
+    if(!same_shape){
+      /* rebuild the destination with the order and the matrix sizes of the source */
+      for(k = 0; k < (*adst)->order; k++){
+        DelMatrix(&((*adst)->m[k]));
+      }
+      (*adst)->m = xrealloc((*adst)->m, sizeof(matrix*)*asrc->order);
+      (*adst)->order = asrc->order;
+      for(k = 0; k < asrc->order; k++){
+        NewMatrix(&((*adst)->m[k]), asrc->m[k]->row, asrc->m[k]->col);
+      }
+    }
   }
-
   /*copy the data...*/
   for(k = 0; k < asrc->order; k++){
     for(i = 0; i < asrc->m[k]->row; i++){
